@@ -1328,79 +1328,15 @@ func (t *Tokenizer) readPunctuation() (models.Token, error) {
 				}
 				return models.Token{Type: models.TokenTypeArrow, Value: "->"}, nil
 			}
-			// Check for line comment: --
-			if nxtR == '-' {
-				commentStartIdx := t.pos.Index - size // back to first '-'
-				commentStartPos := t.toSQLPosition(Position{Index: commentStartIdx})
-				t.pos.AdvanceRune(nxtR, nxtSize)
-				// Skip until end of line or EOF
-				for t.pos.Index < len(t.input) {
-					cr, csize := utf8.DecodeRune(t.input[t.pos.Index:])
-					if cr == '\n' {
-						t.pos.AdvanceRune(cr, csize) // Skip the newline too
-						break
-					}
-					t.pos.AdvanceRune(cr, csize)
-				}
-				commentEndIdx := t.pos.Index
-				// Trim trailing newline from comment text
-				textEnd := commentEndIdx
-				if textEnd > 0 && t.input[textEnd-1] == '\n' {
-					textEnd--
-				}
-				t.Comments = append(t.Comments, models.Comment{
-					Text:   string(t.input[commentStartIdx:textEnd]),
-					Style:  models.LineComment,
-					Start:  commentStartPos,
-					End:    t.toSQLPosition(t.pos),
-					Inline: t.hasCodeBeforeOnLine(commentStartIdx),
-				})
-				// Return the next token (skip the comment)
-				t.skipWhitespace()
-				return t.nextToken()
-			}
+			// "--" never reaches this point: skipTrivia consumes comments before a token starts
 		}
 		return models.Token{Type: models.TokenTypeMinus, Value: "-"}, nil
 	case '*':
 		t.pos.AdvanceRune(r, size)
 		return models.Token{Type: models.TokenTypeMul, Value: "*"}, nil
 	case '/':
+		// "/*" never reaches this point: skipTrivia consumes comments before a token starts
 		t.pos.AdvanceRune(r, size)
-		if t.pos.Index < len(t.input) {
-			nxtR, nxtSize := utf8.DecodeRune(t.input[t.pos.Index:])
-			// Check for block comment: /*
-			if nxtR == '*' {
-				commentStartIdx := t.pos.Index - size // back to '/'
-				commentStartPos := t.toSQLPosition(Position{Index: commentStartIdx})
-				t.pos.AdvanceRune(nxtR, nxtSize)
-				// Skip until */ or EOF
-				for t.pos.Index < len(t.input) {
-					cr, csize := utf8.DecodeRune(t.input[t.pos.Index:])
-					if cr == '*' {
-						t.pos.AdvanceRune(cr, csize)
-						if t.pos.Index < len(t.input) {
-							nr, ns := utf8.DecodeRune(t.input[t.pos.Index:])
-							if nr == '/' {
-								t.pos.AdvanceRune(nr, ns) // End of block comment
-								break
-							}
-						}
-					} else {
-						t.pos.AdvanceRune(cr, csize)
-					}
-				}
-				t.Comments = append(t.Comments, models.Comment{
-					Text:   string(t.input[commentStartIdx:t.pos.Index]),
-					Style:  models.BlockComment,
-					Start:  commentStartPos,
-					End:    t.toSQLPosition(t.pos),
-					Inline: t.hasCodeBeforeOnLine(commentStartIdx),
-				})
-				// Return the next token (skip the comment)
-				t.skipWhitespace()
-				return t.nextToken()
-			}
-		}
 		return models.Token{Type: models.TokenTypeDiv, Value: "/"}, nil
 	case '=':
 		t.pos.AdvanceRune(r, size)
